@@ -3,6 +3,7 @@ import Avfs.Driver.Path
 import Avfs.Driver.Copy
 import Avfs.Driver.FS
 import Avfs.Driver.OSType
+import Avfs.Driver.OFS
 /-
   avfsdrv: line-protocol driver. One input line -> exactly one output line.
   Core Lean only (links natively).
@@ -13,6 +14,7 @@ structure DState where
   idm : Idm.State := Idm.init [] []
   idmSpec : Idm.Spec := Idm.Spec.init [] []
   fs : FS.FSState := FS.initState
+  ofs : Orefa.OState := Orefa.initState Orefa.dummyId Orefa.dummyId
 
 def stepLine (st : DState) (line : String) : DState × String :=
   match (line.trimAscii.toString.splitOn " ").filter (· ≠ "") with
@@ -20,6 +22,7 @@ def stepLine (st : DState) (line : String) : DState × String :=
   | "idmspec" :: rest => let (s, o) := Idm.specExec st.idmSpec rest; ({ st with idmSpec := s }, o)
   | "path" :: rest => (st, Path.exec rest)
   | "fs" :: rest => let (s, o) := FS.exec st.fs rest; ({ st with fs := s }, o)
+  | "ofs" :: rest => let (s, o) := Orefa.exec st.ofs rest; ({ st with ofs := s }, o)
   | "ostype" :: rest => (st, OSType.exec rest)
   | "copy" :: rest => (st, Copy.exec rest)
   | "pathspec" :: rest => (st, Path.specExec rest)
